@@ -193,7 +193,14 @@ fn transform_list() -> BoxedStrategy<(String, Vec<&'static str>)> {
                 feats.extend(nums[..n].iter().map(|x| x.1));
                 let (a, f) = join_numbers(&args, *st);
                 feats.extend(f);
-                s.push_str(&format!("{name}({}{a}{})", if st % 5 == 0 { " " } else { "" }, if st % 7 == 0 { " " } else { "" }));
+                // "translate" wsp* "(" : white space is allowed between the function name and the parenthesis
+                let gap = if st % 11 == 0 {
+                    feats.push("transform.space-before-paren");
+                    if st % 2 == 0 { " " } else { "  " }
+                } else {
+                    ""
+                };
+                s.push_str(&format!("{name}{gap}({}{a}{})", if st % 5 == 0 { " " } else { "" }, if st % 7 == 0 { " " } else { "" }));
             }
             (s, feats)
         })
@@ -306,6 +313,23 @@ fn el(p: &P, b: &mut B, depth: usize, rest: &[P], used: &mut usize) -> XEl {
         }
         9 => {
             let mut t = XEl::new("text").a("x", n(0, b)).a("y", n(1, b));
+            match (p.f >> 4) % 5 {
+                // x / y of text content elements are lists of lengths
+                1 => {
+                    t.set("x", format!("{} {} {}", n(0, b), n(2, b), n(3, b)));
+                    b.f("text.xy-list");
+                }
+                2 => {
+                    t.set("y", format!("{},{}", n(1, b), n(4, b)));
+                    b.f("text.xy-list");
+                }
+                3 => {
+                    t.set("x", l(0, b));
+                    t.set("y", l(1, b));
+                    b.f("text.xy-length");
+                }
+                _ => {}
+            }
             match p.f % 4 {
                 0 => t.kids.push(X::Text(p.txt.clone())),
                 1 => {
@@ -354,6 +378,11 @@ fn el(p: &P, b: &mut B, depth: usize, rest: &[P], used: &mut usize) -> XEl {
                 2 => {
                     u.set("href", "other.svg#thing");
                     b.f("use.external-href");
+                }
+                _ if p.f & 0x40 != 0 => {
+                    // ids are XML names: '.', '-', '_' and ':' are legal name characters
+                    u.set("href", "#shape.v2-a");
+                    b.f("use.dotted-id");
                 }
                 _ => {
                     u.set("href", "#circ1");
@@ -420,6 +449,11 @@ fn el(p: &P, b: &mut B, depth: usize, rest: &[P], used: &mut usize) -> XEl {
             b.f("animate-child");
             c
         }
+        21 if p.f & 0x10 != 0 => {
+            // the keyword none is a legal value of every one of these properties
+            b.f("ref.none");
+            XEl::new("rect").a("width", l(0, b)).a("height", l(1, b)).a("filter", "none").a("clip-path", "none").a("mask", "none").a("marker-end", "none")
+        }
         21 => XEl::new("rect").a("width", l(0, b)).a("height", l(1, b)).a("filter", "url(#filt1)").a("clip-path", "url(#clip1)").a("mask", "url(#mask1)").a("marker-end", "url(#mark1)"),
         22 => {
             b.f("text.textPath");
@@ -451,6 +485,7 @@ fn defs_block() -> XEl {
         .kid(XEl::new("mask").a("id", "mask1").kid(XEl::new("rect").a("width", "100%").a("height", "100%").a("fill", "white")))
         .kid(XEl::new("symbol").a("id", "sym1").a("viewBox", "0 0 10 10").kid(XEl::new("rect").a("width", "10").a("height", "10")))
         .kid(XEl::new("rect").a("id", "shape1").a("width", "8").a("height", "4"))
+        .kid(XEl::new("rect").a("id", "shape.v2-a").a("width", "3").a("height", "3"))
         .kid(XEl::new("circle").a("id", "circ1").a("cx", "5").a("cy", "5").a("r", "5"))
         .kid(XEl::new("path").a("id", "pathdef").a("d", "M0 0 C 10 10 20 10 30 0"))
         .kid(XEl::new("pattern").a("id", "pat1").a("width", "4").a("height", "4").a("patternUnits", "userSpaceOnUse").kid(XEl::new("circle").a("cx", "2").a("cy", "2").a("r", "1")))
@@ -486,6 +521,16 @@ fn fam_docs(_t: Tier) -> BoxedStrategy<Case> {
                 if root_attrs & 4 != 0 {
                     root.set("preserveAspectRatio", "xMinYMin meet");
                 }
+                if root_attrs & 8 != 0 {
+                    root.set("class", "doc one");
+                    b.f("root.attrs");
+                }
+                if root_attrs & 16 != 0 {
+                    root.set("id", "root1");
+                    root.set("style", "background: white");
+                    root.set("data-name", "x");
+                    b.f("root.attrs");
+                }
                 root.kids = kids;
                 root.to_xml()
             } else {
@@ -518,6 +563,7 @@ fn same(a: &Element, b: &Element, is_root: bool, path: &str) -> Result<(), (Stri
     let tag = match a.name.as_str() {
         "use" => match (a.attr("href"), a.attr("xlink:href")) {
             (Some("#circ1"), _) => Some("use.circle-target"),
+            (Some("#shape.v2-a"), _) => Some("use.dotted-id"),
             (Some("#sym1"), _) => Some("use.symbol"),
             (Some(h), _) if !h.starts_with('#') => Some("use.external-href"),
             (None, Some(_)) => Some("use.xlink-href"),
@@ -658,7 +704,9 @@ impl Property for C04 {
             // prefer a feature that belongs to the element named in the clause's detail
             let el_pref: &[(&str, &[&str])] = &[
                 ("<line>", &["line.omitted-coordinates"]),
-                ("<use>", &["use.external-href", "use.xlink-href", "use.circle-target", "use.symbol"]),
+                ("<use>", &["use.dotted-id", "use.external-href", "use.xlink-href", "use.circle-target", "use.symbol"]),
+                ("<text>", &["text.xy-list", "text.xy-length"]),
+                ("<svg>", &["root.attrs"]),
                 ("<image>", &["href.xlink"]),
                 ("<a>", &["href.xlink"]),
             ];
@@ -670,7 +718,7 @@ impl Property for C04 {
                 }
             }
             let clause = clause.split('@').next().unwrap_or(clause);
-            const ORDER: &[&str] = &["use.external-href", "use.xlink-href", "use.circle-target", "use.symbol", "href.xlink", "path.compact-arc-flags", "list.sign-separated", "transform.no-separator", "num.exponent", "num.plus-sign", "num.leading-dot", "num.trailing-dot", "text.textPath", "text.tspan-mixed", "text.tspans", "text.dx-list", "foreignObject", "nested-svg", "switch", "animate-child", "style.cdata", "line.omitted-coordinates", "rect.corner-radius", "length.unit-with-number-forms", "length.unit", "length.percent", "path.arcs", "path.curves", "attr.path", "attr.points", "attr.transform"];
+            const ORDER: &[&str] = &["ref.none", "use.dotted-id", "text.xy-list", "text.xy-length", "transform.space-before-paren", "root.attrs", "use.external-href", "use.xlink-href", "use.circle-target", "use.symbol", "href.xlink", "path.compact-arc-flags", "list.sign-separated", "transform.no-separator", "num.exponent", "num.plus-sign", "num.leading-dot", "num.trailing-dot", "text.textPath", "text.tspan-mixed", "text.tspans", "text.dx-list", "foreignObject", "nested-svg", "switch", "animate-child", "style.cdata", "line.omitted-coordinates", "rect.corner-radius", "length.unit-with-number-forms", "length.unit", "length.percent", "path.arcs", "path.curves", "attr.path", "attr.points", "attr.transform"];
             let f = ORDER.iter().find(|o| c.features.iter().any(|f| f == *o)).copied().unwrap_or("plain");
             format!("c04:{clause}:{f}")
         };
